@@ -48,7 +48,15 @@ try:
     pf = os.path.join(dst_dir, "patch.diff")
     r = subprocess.run(["git", "apply", pf], cwd=dst, stdout=subprocess.PIPE, stderr=subprocess.STDOUT, text=True)
     if r.returncode:
-        r = subprocess.run(["git", "apply", "--3way", pf], cwd=dst, stdout=subprocess.PIPE, stderr=subprocess.STDOUT, text=True)
+        r = subprocess.run(["git", "apply", "--ignore-whitespace", pf], cwd=dst, stdout=subprocess.PIPE,
+                           stderr=subprocess.STDOUT, text=True)
+    if r.returncode:
+        r = subprocess.run(["patch", "-p1", "-l", "-s", "-i", pf], cwd=dst, stdout=subprocess.PIPE, stderr=subprocess.STDOUT, text=True)
+    if r.returncode == 0:
+        # keep the patch in the form that applies to the current /repo
+        d = subprocess.run(["git", "diff", "--", "src"], cwd=dst, stdout=subprocess.PIPE, text=True).stdout
+        if d.strip():
+            open(pf, "w", newline="").write(d)
     res["patch_applies"] = r.returncode == 0
     if r.returncode:
         print("patch failed:", r.stdout)
